@@ -41,6 +41,8 @@ DEFS = [
     ("concrete with default", '#[ts(concrete(B = i32))] pub struct @<A, B = u8> { pub a: A, pub b: B }', ["A"], {"concrete": {"B": "i32"}}),
     ("all concrete with default", '#[ts(concrete(T = bool))] pub enum @<T = bool> { A(T), B { x: Vec<T> }, C }', [], {"concrete": {"T": "bool"}}),
     ("concrete in two attributes", '#[ts(concrete(A = i32))] #[ts(concrete(B = String))] pub struct @<C, A, B> { pub a: A, pub b: Vec<B>, pub c: Option<C> }', ["C"], {"concrete": {"A": "i32", "B": "String"}}),
+    ("concrete first", '#[ts(concrete(D = Inner))] pub struct @<D, T> { pub meta: D, pub body: Vec<T> }', ["T"], {"concrete": {"D": "Inner"}, "order": ["D", "T"]}),
+    ("concrete in the middle", '#[ts(concrete(B = i32))] pub struct @<A, B, C> { pub a: A, pub b: B, pub c: Option<C> }', ["A", "C"], {"concrete": {"B": "i32"}, "order": ["A", "B", "C"]}),
     ("enum", "pub enum @<T> { A(T), B { x: Vec<T> }, C }", ["T"], {}),
     ("enum tagged", '#[ts(tag = "t", content = "c")] pub enum @<T> { A(T), B { x: Option<T> }, C(T, T) }', ["T"], {}),
     ("newtype", "pub struct @<T>(pub T);", ["T"], {}),
@@ -69,7 +71,11 @@ def build():
         insts = []
         for an in range(3 if len(params) == 1 else 3):
             args = [ARGS[(an * 2 + k) % len(ARGS)] for k in range(len(params))] + list(opts.get("concrete", {}).values())
-            full = (["'static"] * opts.get("lifetimes", 0)) + args + opts.get("consts", [])
+            tyargs = args
+            if "order" in opts:      # declaration order of the type parameters when the concrete ones are not the last
+                it = iter(args[:len(params)])
+                tyargs = [opts["concrete"][n_] if n_ in opts["concrete"] else next(it) for n_ in opts["order"]]
+            full = (["'static"] * opts.get("lifetimes", 0)) + tyargs + opts.get("consts", [])
             insts.append((args, "%s<%s>" % (base, ", ".join(full))))
         # the definition lives in the shared prelude; each instantiation is one unit (type alias)
         plan.append((base, label, src.replace("@", base), params, opts, insts))
